@@ -26,6 +26,12 @@ def ctx(platform):
             spec = privgen.abort_spec(platform)
         except Exception:  # noqa: BLE001
             spec = ("none",)
+            for asyncio_ in (False, True):     # sync and asyncio differ, or one is not a modelled shape: take a recognised one
+                try:
+                    spec = privgen.abort_spec_stack(platform, asyncio_)
+                    break
+                except Exception:  # noqa: BLE001
+                    continue
         marker = spec[1] if spec[0] == "ifSession" else privgen.SESSION_MARKER_DEFAULT
         try:
             rows = privgen.table(platform)
@@ -43,12 +49,24 @@ def ctx(platform):
     return _ctx[platform]
 
 
+_srows = {}
+
+
 def session_rows(platform, names):
-    t = ctx(platform)["sess"]
-    out = []
-    for n in names:
-        out.append((n, t["prev"], t["escPrefix"] + n, t["desc"], False, "s:" + n[:t["keyTake"]], t["sess"]))
-    return out
+    """rows of the levels the REAL driver registers for these session names (share-group keys by pattern equality over the
+    whole table, same rule as for the base table); [] when the platform cannot register sessions"""
+    from gen import privgen
+    k = (platform, tuple(names))
+    if k not in _srows:
+        d = privgen._construct(privgen._drivers(platform)[0], False)
+        nbase = len(d.privilege_levels)
+        if names and hasattr(d, "_create_configuration_session"):
+            for n in names:
+                d._create_configuration_session(session_name=n)
+            _srows[k] = privgen.level_rows(d.privilege_levels, ctx(platform)["marker"])[nbase:]
+        else:
+            _srows[k] = []
+    return list(_srows[k])
 
 
 # ---------- custom tables (random trees)
@@ -140,11 +158,13 @@ async def run_async(case):
     return observe(recs, snaps, t, conn, dev)
 
 
-def case_rows(case):
+def case_rows(case, sessions=None):
+    """the privilege table of a case; `sessions`: the sessions registered so far (default: every session the case registers)"""
     if case["platform"] == "custom":
         return [tuple(r) for r in case["table"]]
-    sess = [o[1] for o in case["ops"] if o[0] == "R"]
-    return list(ctx(case["platform"])["rows"]) + session_rows(case["platform"], sess)
+    if sessions is None:
+        sessions = list(dict.fromkeys(o[1] for o in case["ops"] if o[0] == "R"))
+    return list(ctx(case["platform"])["rows"]) + session_rows(case["platform"], sessions)
 
 
 def request(case, obs):
@@ -166,16 +186,21 @@ def request(case, obs):
 def oracle(case, obs):
     """-> list of (what, flags) ; flags feed the known-finding matcher"""
     from harness.privdevice import path_commands, tree_path
-    rows = case_rows(case)
-    names = [r[0] for r in rows]
-    key = {r[0]: r[5] for r in rows}
-    cmds = {r[2] for r in rows if r[1]} | {r[3] for r in rows if r[1]}
     blocked = {tuple(k) for k, _ in case["blocked"]}
-    n = obs["nlevels"]
     out = []
     prev = {"mode": case["login"], "rounds": 0, "loglen": 0}
     closed = False
+    registered = []
+    tainted = False      # an earlier acquisition met the finding's predicate and the belief has been wrong since
     for i, (op, rec) in enumerate(zip(case["ops"], obs["recs"])):
+        # the table as it is when this operation runs: base levels + the sessions registered so far
+        rows = case_rows(case, registered)
+        names = [r[0] for r in rows]
+        key = {r[0]: r[5] for r in rows}
+        cmds = {r[2] for r in rows if r[1]} | {r[3] for r in rows if r[1]}
+        n = len(rows)
+        if op[0] == "R" and rec["out"] == "ok":
+            registered = registered + [op[1]]
         if closed:
             # an earlier timeout closed the transport (scrapli's timeout handling): nothing more can reach the device
             if op[0] == "A" and (rec["out"] != "conn" or rec["loglen"] != prev["loglen"]):
@@ -196,7 +221,8 @@ def oracle(case, obs):
         # belief unknown while the device sits in a level that shares its prompt: after a refused transition the driver may take
         # the device for a sibling (first match) and type that sibling's command; the call still has to fail within the bound
         ambiguous = any(bel == "DUMMY" and sum(1 for r in rows if r[5] == key.get(mode)) > 1 for bel, mode, *_ in probes)
-        flags = {"hazard": hazard}
+        flags = {"hazard": hazard or tainted}
+        tainted = (tainted or hazard) and rec["belief"] not in ("DUMMY", rec["mode"])
         if rec["out"] in BAD or rec["out"].startswith("EXC:"):
             out.append((tag + f"ended with {rec['out']} (not a scrapli privilege / authentication / timeout error)", flags))
             continue
@@ -365,6 +391,34 @@ def custom_cases(rng, count, forest=False):
             yield mk_case("custom", rows, [], a, b, blocked, pwv, known, root, extra=dict(table=[list(r) for r in rows], tags=tags))
 
 
+SESSION_NAME_SETS = {"cisco_nxos": [("sessA", "sessB"), ("maint-a", "maint-b", "zz3")],
+                     "arista_eos": [("sessA", "other-b"), ("sessionA1", "sessionA2"), ("sessionA1", "sessionA2", "other-b")]}
+
+
+def interleaved_session_cases(rng, platform, names, nmax, budget=None):
+    """histories that interleave registering sessions and navigating: register / acquire / register / acquire ... over 2-3 session
+    names (same prompt pattern or not), so that prompts are classified BETWEEN registrations; all of them to length nmax, or a
+    PRNG sample of `budget` (then also other login levels and blocked transitions)"""
+    c = ctx(platform)
+    alpha = [("R", n) for n in names] + [("A", n) for n in names] + [("A", c["default"]), ("A", "configuration")]
+
+    def case(login, h, blocked=()):
+        return dict(platform=platform, login=login, ops=[list(o) for o in h], blocked=[[list(k), v] for k, v in blocked], dpw=None, sec="", pwl=3)
+    if budget is None:
+        for n in range(2, nmax + 1):
+            for h in itertools.product(alpha, repeat=n):
+                if any(o[0] == "R" for o in h) and any(o[0] == "A" and o[1] in names for o in h):
+                    yield case(c["default"], h)
+    else:
+        logins = [r[0] for r in c["rows"]]
+        tr = transitions(list(c["rows"]) + session_rows(platform, list(names)))
+        for _ in range(budget):
+            h = [rng.choice(alpha) for _ in range(rng.choice([3, 4, 5, 6, 8]))]
+            k = rng.choice([0, 0, 0, 1, 2])
+            blocked = [((m, cmd), rng.choice(["refuse", "ignore"])) for m, cmd in rng.sample(tr, min(k, len(tr)))]
+            yield case(rng.choice(logins), h, blocked)
+
+
 SESSION_SETS = {"cisco_iosxe": [[]], "cisco_iosxr": [[]], "juniper_junos": [[]],
                 "cisco_nxos": [[], ["sessA"]], "arista_eos": [[], ["sessA"], ["sessA", "other-b"]]}
 
@@ -387,6 +441,13 @@ def gen_cases(ck, tier):
                     cases += list(platform_cases(rng, p, sessions, True, 0))
                 else:
                     cases += list(platform_cases(rng, p, sessions, False, 450))
+    for p, sets in SESSION_NAME_SETS.items():
+        for names in sets:
+            if len(names) == 2:
+                cases += list(interleaved_session_cases(rng, p, names, 4 if tier == "quick" else 5))
+            elif tier == "thorough":
+                cases += list(interleaved_session_cases(rng, p, names, 4))
+            cases += list(interleaved_session_cases(rng, p, names, 0, budget=150 if tier == "quick" else 1500))
     cases += list(custom_cases(rng, 80 if tier == "quick" else 1500))
     return cases
 
@@ -518,7 +579,8 @@ def run(tier, seed):
     except Exception as e:  # noqa: BLE001
         ck.proof_broken("translator gen/privgen.py", repr(e))
     ck.prove("ScrapliProps.C04", lemma_files=["ScrapliProps/C04Lemmas.lean", "ScrapliProps/C04Loop.lean", "ScrapliProps/C04Reach.lean",
-                                               "ScrapliModel/Priv/Table.lean", "ScrapliModel/Priv/Device.lean", "ScrapliModel/Priv/Driver.lean"])
+                                               "ScrapliModel/Priv/Table.lean", "ScrapliModel/Priv/Device.lean", "ScrapliModel/Priv/Driver.lean",
+                                               "ScrapliModel/Priv/Cache.lean"])
     if tier == "thorough":
         ck.leanchecker("ScrapliProps.C04")
     load_findings(ck)
@@ -549,12 +611,16 @@ def run(tier, seed):
         runs = [("sync", obs_s[i])] + ([("async", obs_a[i])] if i in obs_a else [])
         if indom:
             tgt_ops = [o for o in c["ops"] if o[0] == "A"]
-            last = obs_s[i]["recs"][-1] if obs_s[i]["recs"] else {"out": "?"}
-            pth = tree_path(rows, c["ops"][-2][1] if len(tgt_ops) == 2 else c["login"], tgt_ops[-1][1]) or []
+            recs_ = obs_s[i]["recs"]
+            last = recs_[-1] if recs_ else {"out": "?"}
+            ia = max((j for j, o in enumerate(c["ops"]) if o[0] == "A"), default=None)
+            before = c["login"] if not ia or ia - 1 >= len(recs_) else recs_[ia - 1]["mode"]
+            pth = (tree_path(rows, before, tgt_ops[-1][1]) if tgt_ops else None) or []
             ck.case(json.dumps(c, sort_keys=True), nontrivial=len(pth) >= 2,
                     sample={k: c[k] for k in ("platform", "login", "ops", "blocked", "dpw", "sec", "pwl")},
                     tags=(c["platform"], f"pathlen={len(pth)}", f"out={last['out']}", f"blocked={min(len(c['blocked']), 4)}",
-                          "dpw" if c["dpw"] else "nopw", f"sec={c['sec'] or '-'}", "belief-known" if len(tgt_ops) == 2 else "belief-unknown"))
+                          "dpw" if c["dpw"] else "nopw", f"sec={c['sec'] or '-'}", "belief-known" if len(tgt_ops) >= 2 else "belief-unknown",
+                          "sessions-interleaved" if any(o[0] == "R" for o in c["ops"][1:]) and tgt_ops else "plain"))
         for stack, o in runs:
             if indom:
                 for what, fl in oracle(c, o):
